@@ -634,15 +634,15 @@ class BitStream(ConstBitStream, bitstring.BitArray):
         self._pos = 0
 
     def __setattr__(self, attribute, value) -> None:
-        try:
-            # Slots and ordinary properties are set in the usual way.
+        if attribute.startswith('_'):
+            # The slots (_bitstore, _pos, ...) are set in the usual way.
             object.__setattr__(self, attribute, value)
-        except AttributeError:
-            # A dtype name with a length, e.g. s.uint8 = 3, which can change the length of the bitstring.
-            length_before = len(self)
-            super().__setattr__(attribute, value)
-            if len(self) != length_before:
-                self._pos = 0
+            return
+        # Anything else is a property. An interpretation such as s.hex = 'ff' or s.uint8 = 3 can change the length.
+        length_before = len(self)
+        super().__setattr__(attribute, value)
+        if len(self) != length_before:
+            self._pos = 0
 
     def __setitem__(self, /, key: Union[slice, int], value: BitsType) -> None:
         length_before = len(self)
